@@ -30,9 +30,9 @@ PYT = 'tdda/referencetest/referencepytest.py'
 TC2 = 'tdda/referencetest/referencetestcase.py'
 VARIANTS += [
     M('C19', 'pytest-listing-keeps-tagged-when-both-options', E(PYT, "            if showtagged or not tagged:\n                items.remove(f)", "            if not (runtagged and tagged):\n                items.remove(f)"),
-      rule='C19-PYTABLE', key='--tagged=True,--istagged=True,tagged=True'),
+      rule='C19-PYTABLE', key='--tagged=True,--istagged=True'),
     M('C19', 'pytest-listing-prints-untagged', E(PYT, "            if tagged and showtagged:\n                if cls:", "            if showtagged:\n                if cls:"),
-      rule='C19-PYTABLE', key='tagged=False'),
+      rule='C19-PYTABLE', key='--istagged=True'),
     M('C19', 'loader-chain-loses-list-mode', E(TC2, "    loader = (TaggedTestLoader(check) if tagged or check\n              else unittest.defaultTestLoader)",
                                                "    if tagged:\n        loader = TaggedTestLoader(False)\n    elif check:\n        loader = TaggedTestLoader(True)\n    else:\n        loader = unittest.defaultTestLoader"),
       rule='C19-CHECKMODE', key='loader-choice:tagged=True,check=True'),
